@@ -42,6 +42,27 @@ pub enum Fill {
     AllValues,
 }
 
+/// In-memory representation of a native Pixel Data value.
+#[derive(Clone, Copy, Debug, PartialEq)]
+pub enum PxRepr {
+    /// VR OB, bytes
+    ObBytes,
+    /// VR OW, value held as bytes (little-endian stream)
+    OwBytes,
+    /// VR OW, value held as 16-bit words
+    OwWords,
+}
+
+impl PxRepr {
+    pub fn name(self) -> &'static str {
+        match self {
+            PxRepr::ObBytes => "OB/bytes",
+            PxRepr::OwBytes => "OW/bytes",
+            PxRepr::OwWords => "OW/words",
+        }
+    }
+}
+
 #[derive(Clone, Debug)]
 pub struct GImg {
     pub rows: u16,
@@ -408,6 +429,38 @@ impl GImg {
         } else {
             DataElement::new(Tag(0x7FE0, 0x0010), VR::OB, PrimitiveValue::U8(bytes.into()))
         }
+    }
+
+    /// Native pixel data element in a chosen in-memory representation. All three are produced by
+    /// dicom-rs itself: OB/U8 and OW/U16 by the reader, OW/U8 by the transcoder for 8-bit data.
+    /// Representations that do not fit (odd byte count under OW, OB for 16 bits) fall back to the
+    /// natural one; the representation actually used is returned.
+    pub fn native_pixel_element_repr(&self, r: PxRepr) -> (DataElement<InMemDicomObject>, PxRepr) {
+        let bytes = self.native_bytes();
+        let t = Tag(0x7FE0, 0x0010);
+        let r = match (self.bits_allocated, r) {
+            (1, _) => PxRepr::ObBytes,
+            (16, PxRepr::ObBytes) => PxRepr::OwBytes,
+            (8, PxRepr::OwBytes) | (8, PxRepr::OwWords) if bytes.len() % 2 == 1 => PxRepr::ObBytes,
+            (_, r) => r,
+        };
+        let e = match r {
+            PxRepr::ObBytes => DataElement::new(t, VR::OB, PrimitiveValue::U8(bytes.into())),
+            PxRepr::OwBytes => DataElement::new(t, VR::OW, PrimitiveValue::U8(bytes.into())),
+            PxRepr::OwWords => {
+                let words: Vec<u16> = bytes.chunks(2).map(|c| c[0] as u16 | (c[1] as u16) << 8).collect();
+                DataElement::new(t, VR::OW, PrimitiveValue::U16(words.into()))
+            }
+        };
+        (e, r)
+    }
+
+    /// The image as a native file object with the pixel data in representation `r`.
+    pub fn to_file_object_repr(&self, ts_uid: &str, r: PxRepr) -> (FileDicomObject<InMemDicomObject>, PxRepr) {
+        let mut o = self.base_object();
+        let (e, r) = self.native_pixel_element_repr(r);
+        o.put(e);
+        (wrap(o, ts_uid), r)
     }
 
     /// The image as a native file object in transfer syntax `ts_uid` (one of the native ones).
